@@ -145,6 +145,33 @@ def kwarg(call, name):
     for k in call.keywords:
         if k.arg == name:
             return k.value
+    # **kw where kw is a local bound exactly once to a dict display / dict(k=v, ...) call (keyword arguments computed once, e.g. before a loop)
+    for k in call.keywords:
+        if k.arg is None and isinstance(k.value, ast.Name):
+            fn = enclosing_function(call)
+            if fn is None:
+                continue
+            stores = [x for x in ast.walk(fn) if isinstance(x, ast.Name) and x.id == k.value.id and isinstance(x.ctx, (ast.Store, ast.Del))]
+            if len(stores) != 1:
+                continue
+            a = parent(stores[0])
+            if not (isinstance(a, ast.Assign) and len(a.targets) == 1 and a.targets[0] is stores[0]):
+                continue
+            # the dict must not be modified after its creation
+            touched = [x for x in ast.walk(fn) if (isinstance(x, ast.Subscript) and isinstance(x.ctx, (ast.Store, ast.Del)) and isinstance(x.value, ast.Name) and x.value.id == k.value.id)
+                       or (isinstance(x, ast.Call) and isinstance(x.func, ast.Attribute) and isinstance(x.func.value, ast.Name) and x.func.value.id == k.value.id
+                           and x.func.attr in ("update", "pop", "setdefault", "clear", "popitem"))]
+            if touched:
+                continue
+            v = a.value
+            if isinstance(v, ast.Dict):
+                for kk, vv in zip(v.keys, v.values):
+                    if kk is not None and isinstance(kk, ast.Constant) and kk.value == name:
+                        return vv
+            elif isinstance(v, ast.Call) and isinstance(v.func, ast.Name) and v.func.id == "dict" and not v.args:
+                for kk in v.keywords:
+                    if kk.arg == name:
+                        return kk.value
     return None
 
 
